@@ -480,12 +480,12 @@ func (st *c17State) digest(idxs []int, v int64, r *rand.Rand, fail func(string, 
 	return idxList(idxs) + ":" + has + ":" + idxList(missIdx) + ":" + cls.String() + ":" + rep
 }
 
-// digestShape: the composite ops cycle through the donor shapes the pristine code repairs from.
+// digestShape: the composite ops draw from all donor shapes.
 func (st *c17State) digestShape(r *rand.Rand) string {
 	return digestDonorShapes[r.Intn(len(digestDonorShapes))]
 }
 
-var digestDonorShapes = []string{"mem", "pndb", "lmm", "lmp"}
+var digestDonorShapes = donorShapes
 
 func (st *c17State) usedSorted() []string {
 	var ps []string
